@@ -412,7 +412,7 @@ func (cs *ContractSet) LoadLines(path string, lines []string, lineNos []int, pkg
 			}
 			tags, r := parseTags(rest)
 			callee, ex, _ := strings.Cut(r, " ")
-			callee = qualify(pkgOfCallee(pkg, callee), callee)
+			callee = (&CCtx{}).calleeKey(qualify(pkgOfCallee(pkg, callee), callee)) // "gopki/..." is the module path
 			pe, err := parse(strings.TrimSpace(ex))
 			if err != nil {
 				return fail(err)
